@@ -367,7 +367,7 @@ func typeChanged(from, to *schema.Column, ns string) (bool, error) {
 		changed = toT.T != fromT.T &&
 			// In case the type is defined with schema qualifier, but returned without
 			// (inspecting a schema scope), or vice versa, remove before comparing.
-			ns != "" && trimSchema(toT.T, ns) != trimSchema(fromT.T, ns)
+			(ns == "" || trimSchema(toT.T, ns) != trimSchema(fromT.T, ns))
 	case *CompositeType:
 		toT := toT.(*CompositeType)
 		changed = toT.T != fromT.T ||
